@@ -1293,7 +1293,7 @@ _BTree_setstate(BTree *self, PyObject *state, int noval)
         else
         {
             if (!(SameType_Check(self, v) ||
-                  PyObject_IsInstance(v, (PyObject *)leaftype)))
+                  PyObject_TypeCheck(v, leaftype)))
             {
                 PyErr_Format(PyExc_TypeError,
                              "tree child %s is neither %s nor %s",
@@ -1312,7 +1312,7 @@ _BTree_setstate(BTree *self, PyObject *state, int noval)
     if (!firstbucket)
         firstbucket = (PyObject *)self->data->child;
 
-    if (!PyObject_IsInstance(firstbucket, (PyObject *)leaftype))
+    if (!PyObject_TypeCheck(firstbucket, leaftype))
     {
         PyErr_SetString(PyExc_TypeError,
                         "No firstbucket in non-empty BTree");
@@ -1435,7 +1435,7 @@ BTree__p_resolveConflict(BTree *self, PyObject *args)
     if (s[2] == NULL)
         return NULL;
 
-    if (PyObject_IsInstance((PyObject *)self, (PyObject *)&BTreeType))
+    if (PyObject_TypeCheck((PyObject *)self, &BTreeType))
         x = _bucket__p_resolveConflict(OBJECT(&BucketType), s);
     else
         x = _bucket__p_resolveConflict(OBJECT(&SetType), s);
